@@ -17,7 +17,7 @@ structure TClosed (u : UP) (T : Nat → Th → Prop) : Prop where
     T j { uFinishCommit c (uPrepareWrite c u.qmax t st.size).1 st.size with
             qStmts := t.qStmts ++ [st], accepted := t.accepted ++ [st] }
   shrink : ∀ j c t w, TI t → T j t → T j (uShrink c t w)
-  bump : ∀ j t d1 d2, T j t →
+  bump : ∀ j t d1 d2, d1 + d2 = 1 → T j t →
     T j { t with fail := t.fail + 1, discarded := t.discarded + d1, blockedCalls := t.blockedCalls + d2 }
   inval : ∀ j t, T j t → T j { t with valid := false }
 
@@ -87,12 +87,12 @@ theorem GI.enqFlowU (hc : TClosed u T) {s : BSt} (h : GI T c s) (a : Nat) (st : 
   have hretry : ∀ x : BSt, GI T c x → GI T c (x.setActor a (fun y => { y with pend := .retry st cont })) :=
     fun x hx => hx.ofUI (hx.ui.setPend a _ (fun st' hst => by
       simp only [pendStmt, Option.some.injEq] at hst; rw [← hst]; exact hsz)) rfl
-  have hb : ∀ (d1 d2 : Nat) (x : BSt), GI T c x → GI T c (if isLogKind st.kind then
+  have hb : ∀ (d1 d2 : Nat), d1 + d2 = 1 → ∀ (x : BSt), GI T c x → GI T c (if isLogKind st.kind then
       x.setTh ci (fun t => { t with fail := t.fail + 1, discarded := t.discarded + d1,
                                     blockedCalls := t.blockedCalls + d2 }) else x) := by
-    intro d1 d2 x hx
+    intro d1 d2 hd x hx
     split
-    · exact hx.setTh ci _ (fun ht => ht.same rfl rfl rfl rfl rfl rfl) (fun _ hT => hc.bump ci _ d1 d2 hT)
+    · exact hx.setTh ci _ (fun ht => ht.same rfl rfl rfl rfl rfl rfl) (fun _ hT => hc.bump ci _ d1 d2 hd hT)
     · exact hx
   cases g with
   | grant => exact (hnone _ h2).afterEnq a st cont
@@ -101,11 +101,11 @@ theorem GI.enqFlowU (hc : TClosed u T) {s : BSt} (h : GI T c s) (a : Nat) (st : 
     dsimp only
     split
     · split
-      · exact hnone _ (hb _ _ _ h2)
-      · exact hretry _ (hb _ _ _ h2)
+      · exact hnone _ (hb _ _ (by first | rfl | (split <;> rfl)) _ h2)
+      · exact hretry _ (hb _ _ (by first | rfl | (split <;> rfl)) _ h2)
     · apply hretry
       split
-      · exact hb _ _ _ h2
+      · exact hb _ _ (by first | rfl | (split <;> rfl)) _ h2
       · exact h2
 
 theorem GI.frontCallU (hc : TClosed u T) {s : BSt} (h : GI T c s) (a lgi : Nat) (kind : Kind) (lvl len cont : Nat) (dyn : Bool)
